@@ -130,12 +130,65 @@ def coverage_guided(ctx: Ctx, procs: int, runs: int) -> dict:
         shutil.rmtree(d, ignore_errors=True)
 
 
+def _pinned_work(args) -> dict:
+    """k routed cases per (union occurrence, alternative, use site): the free generator reaches a given alternative of a
+    deep union with a few percent probability per case; pinning makes every alternative certain."""
+    from .. import tvgen
+    from ..hyp import mini
+    items, seed, k = args
+    sub = valuecheck.subject()
+    lctx = Ctx("C01", "quick", seed)
+    res = {"evaluations": 0, "hashes": set(), "pairs": set()}
+    for (occ, idx, root, route) in items:
+        rname = valuecheck.root_name(root)
+        strat = tvgen.value_strategy(sub.objects, root, tvgen.GenCfg(route=route))
+
+        def one(x):
+            tv, _ = x
+            res["evaluations"] += 1
+            res["pairs"].add(f"{occ}#{idx}")
+            res["hashes"].add(tvgen.canon_hash([rname, erase(tv)]))
+            for f in body(sub, root, tv):
+                lctx.finding((f[0], f[1], f[2]), f[3], {"root": list(root), "json": erase(tv), "tv": tvgen.to_json(tv), "extra": None})
+
+        mini(strat, k, (seed, "C01-pinned", occ, idx, rname), one)
+    res["violations"] = list(lctx.violations.values())
+    res["known_hits"] = lctx.known_hits
+    res["known_examples"] = lctx.known_examples
+    return res
+
+
+def pinned_alternatives(ctx: Ctx, sites_per_occurrence, k: int) -> dict:
+    from .. import runner
+    from ..tvgen import Sites
+    sub = valuecheck.subject()
+    sites = Sites(sub.objects)
+    items = []
+    for locus, t in sub.model.union_occurrences():
+        if locus.split("|")[0] == "alias:LSPAny":
+            continue
+        for root, route in sites.sites(locus, sites_per_occurrence):
+            for i in range(len(t["items"])):
+                items.append((locus, i, root, route + [f"{locus}|{i}"]))
+    results = runner.pmap(_pinned_work, [(sh, ctx.seed, k) for sh in runner.chunks(items, runner.NPROC * 3)])
+    ev, hashes, pairs = 0, set(), set()
+    for r in results:
+        ev += r["evaluations"]
+        hashes |= r["hashes"]
+        pairs |= r["pairs"]
+        ctx.merge_worker(r)
+    return {"evaluations": ev, "distinct": len(hashes), "pinned_items": len(items), "cases_per_item": k, "pairs_reached": len(pairs)}
+
+
 def run(ctx: Ctx) -> None:
     ctx.assumptions = [
         "the reference interpreter of the metamodel (lspverif/refmodel.py) reads lsp.json as the LSP specification intends",
         "an optional property that is not null-admitting and carries JSON null is equivalent to an absent one (docstring of is_special_property)",
     ]
     valuecheck.run_value_property(ctx, "C01", n_quick=40, n_thorough=1000, rule=RULE)
+    pin = pinned_alternatives(ctx, 3 if ctx.quick else None, 12 if ctx.quick else 60)
+    ctx.coverage["pinned_union_alternatives"] = pin
+    ctx.coverage["evaluations"] += pin["evaluations"]
     if not ctx.quick:
         cg = coverage_guided(ctx, procs=16, runs=30000)
         ctx.coverage["coverage_guided_campaign"] = cg
